@@ -6,96 +6,108 @@ Import ListNotations.
 Require Import KV.C12.Model KV.C12.Proofs.
 Open Scope N_scope.
 
-(* ================================================================== FULL STATEMENT and refutation *)
+(* ================================================================== FULL STATEMENT *)
 
-(* The full sentence on the model: every password, every valueset type and (given that) every
-   entry frame reads back unchanged. *)
+(* The full sentence on the model of the current (repaired, /repo ef762e7) code: every password of
+   every KDF, with any parameters / salt / hash, reads back as itself and verifies identically;
+   every valueset type reads back as its own type. No class is excluded. *)
 Definition C12_full_statement : Prop :=
   (forall k, reload k = Some k) /\
   (forall o k pw k', reload k = Some k' -> verify o k' pw = verify o k pw) /\
   (forall k, k <> VK_Other -> vs_reload k = Some k).
-
-(* REFUTED on the faithful transcription of the code (both witnesses are confirmed on the real
-   code by the harness): a CRYPT_SHA512 password comes back as CRYPT_SHA256 (libs/crypto
-   lib.rs:487) and a JwsKeyRs256 valueset cannot be loaded at all (valueset/mod.rs:1049). *)
-Theorem C12_refuted : ~ C12_full_statement.
-Proof. intros [H _]. exact (pw_refuted H). Qed.
-Theorem C12_refuted_behaviour : ~ (forall o k pw k', reload k = Some k' -> verify o k' pw = verify o k pw).
-Proof. exact verify_refuted. Qed.
-Theorem C12_refuted_valueset : ~ (forall k, k <> VK_Other -> vs_reload k = Some k).
-Proof. exact vs_refuted. Qed.
+Theorem C12_full_statement_holds : C12_full_statement.
+Proof. split; [exact reload_ok | split; [exact verify_stable | exact vs_reload_ok]]. Qed.
 
 (* ================================================================== passwords (Part A) *)
 
-(* PROVED PART: every password whose KDF is not CRYPT_SHA512 (any parameters, salts and hashes of
-   any length) reads back as exactly the same password. *)
-Theorem C12_password_roundtrip_partial : forall k,
-  ktag k <> TAG_CRYPT_SHA512 -> reload k = Some k.
+(* every password reads back as exactly the same password *)
+Theorem C12_password_roundtrip : forall k, reload k = Some k.
 Proof. exact reload_ok. Qed.
 
-(* ... and therefore verifies exactly the same cleartexts (same Ok/Err, same answer), whatever
-   the hash primitives compute. *)
-Theorem C12_verify_stable_partial : forall o k pw,
-  ktag k <> TAG_CRYPT_SHA512 ->
-  option_map (fun k' => verify o k' pw) (reload k) = Some (verify o k pw).
+(* ... and verifies exactly the same cleartexts (same Ok/Err, same answer), whatever the hash
+   primitives compute *)
+Theorem C12_verify_stable : forall o k pw k',
+  reload k = Some k' -> verify o k' pw = verify o k pw.
 Proof. exact verify_stable. Qed.
 
-(* Loading never fails, and the constructor that comes back is a function of the stored one. *)
-Theorem C12_reload_total : forall k, exists k', reload k = Some k' /\ ktag k' = ktag_after_reload (ktag k).
-Proof.
-  intros k. destruct (reload_total k) as [k' H]. exists k'. split; [exact H | exact (reload_tag k k' H)].
-Qed.
+(* the stored form is reproduced by load-then-store (a backup taken after a restore is equal) *)
+Theorem C12_load_store : forall d, option_map db_of_kdf (kdf_of_db d) = Some d.
+Proof. intros d. destruct (load_store d) as [k [E [E1 _]]]. rewrite E. cbn. rewrite E1. reflexivity. Qed.
 
-(* The excluded class, exactly: the reloaded password is checked with the SHA256-crypt routine
-   against the "$6$" string, the original with the SHA512-crypt routine. *)
-Theorem C12_crypt_sha512_after_reload : forall o h pw,
-  N.of_nat (length pw) <= PW_MAX_LENGTH_CHECK ->
-  option_map (fun k' => verify o k' pw) (reload (K_CRYPT_SHA512 h)) = Some (Some (o_sha256_check o h pw)) /\
-  verify o (K_CRYPT_SHA512 h) pw = Some (o_sha512_check o h pw).
-Proof. exact verify_sha512_after_reload. Qed.
-
-(* The stored form is reproduced by load-then-store (a backup taken after a restore is equal),
-   for every stored password outside the class. *)
-Theorem C12_load_store_partial : forall d,
-  dtag d <> TAG_CRYPT_SHA512 -> option_map db_of_kdf (kdf_of_db d) = Some d.
-Proof. intros d H. destruct (load_store d H) as [k [E [E1 _]]]. rewrite E. cbn. rewrite E1. reflexivity. Qed.
-
-(* Storing is injective: two different passwords never share a stored form. *)
+(* storing is injective: two different passwords never share a stored form *)
 Theorem C12_store_injective : forall a b, db_of_kdf a = db_of_kdf b -> a = b.
 Proof. exact db_of_kdf_inj. Qed.
 
-(* THE PROPOSED FIX (fixes/C12.patch, first hunk) satisfies the full password sentence. *)
-Theorem C12_password_fixed_roundtrip : forall k, kdf_of_db_fixed (db_of_kdf k) = Some k.
-Proof. exact fixed_roundtrip. Qed.
-Theorem C12_password_fixed_load_store : forall d, option_map db_of_kdf (kdf_of_db_fixed d) = Some d.
-Proof. exact fixed_store_roundtrip. Qed.
+(* THE REPAIRED DEFECT (a), documented on the pre-fix transcription kdf_of_db_prefix
+   (libs/crypto lib.rs:487 was `CRYPT_SHA512 {h} => Kdf::CRYPT_SHA256 {h}`; witness confirmed on
+   the pre-fix code: import `{crypt}$6$aXn8azL8DXUyuMvj$9aJJ...` verified "password" before the
+   round trip and not after): the statement was false, exactly for CRYPT_SHA512, where the
+   reloaded password was checked by the SHA256-crypt routine. *)
+Theorem C12_prefix_refuted_password : ~ (forall k, reload_prefix k = Some k).
+Proof. exact prefix_pw_refuted. Qed.
+Theorem C12_prefix_refuted_behaviour :
+  ~ (forall o k pw k', reload_prefix k = Some k' -> verify o k' pw = verify o k pw).
+Proof. exact prefix_verify_refuted. Qed.
+Theorem C12_prefix_defect_exact : forall o h pw,
+  N.of_nat (length pw) <= PW_MAX_LENGTH_CHECK ->
+  reload_prefix (K_CRYPT_SHA512 h) = Some (K_CRYPT_SHA256 h) /\
+  option_map (fun k' => verify o k' pw) (reload_prefix (K_CRYPT_SHA512 h)) = Some (Some (o_sha256_check o h pw)) /\
+  verify o (K_CRYPT_SHA512 h) pw = Some (o_sha512_check o h pw) /\
+  (forall k, ktag k <> TAG_CRYPT_SHA512 -> reload_prefix k = Some k).
+Proof.
+  intros o h pw Hl. destruct (prefix_verify_sha512 o h pw Hl) as [H1 H2].
+  split; [reflexivity | split; [exact H1 | split; [exact H2 | exact prefix_reload_other]]].
+Qed.
 
 (* ================================================================== valueset types (Part B) *)
 
-(* PROVED PART: every valueset type except JwsKeyRs256 writes a variant that the loader hands
-   back to the same type. *)
-Theorem C12_valueset_dispatch_partial : forall k,
-  k <> VK_JwsKeyRs256 -> k <> VK_Other -> vs_reload k = Some k.
+(* every valueset type writes a variant that the loader hands back to the same type *)
+Theorem C12_valueset_dispatch : forall k, k <> VK_Other -> vs_reload k = Some k.
 Proof. exact vs_reload_ok. Qed.
 
 (* a load never turns a valueset into one of another type: it is the same type or an error *)
 Theorem C12_valueset_never_other_type : forall k k', vs_reload k = Some k' -> k' = k.
 Proof. exact vs_reload_only_self. Qed.
 
-(* no two types share a stored variant; every variant goes to the type that writes it (JR apart);
-   the only refused variants are the three retired ones *)
+(* no two types share a stored variant; every variant goes to the type that writes it; the only
+   refused variants are the three retired ones *)
 Theorem C12_tags_distinct : forall a b, tag_of a = tag_of b -> a = b.
 Proof. exact tag_of_inj. Qed.
-Theorem C12_dispatch_sound : forall t k,
-  dispatch t = Some k -> t = tag_of k \/ (t = T_JR /\ k = VK_JwsKeyEs256).
+Theorem C12_dispatch_sound : forall t k, dispatch t = Some k -> t = tag_of k.
 Proof. exact dispatch_sound. Qed.
 Theorem C12_dispatch_refused : forall t,
   dispatch t = None <-> (t = T_PN \/ t = T_TE \/ t = T_EK \/ t = T_Other).
 Proof. exact dispatch_refused. Qed.
 
-(* THE PROPOSED FIX (fixes/C12.patch, second hunk) satisfies the full dispatch sentence. *)
-Theorem C12_valueset_fixed : forall k, k <> VK_Other -> vs_reload_with dispatch_fixed k = Some k.
-Proof. exact vs_fixed. Qed.
+(* THE REPAIRED DEFECT (b), documented on the pre-fix transcription dispatch_prefix
+   (valueset/mod.rs:1049 was `JwsKeyRs256(set) => ValueSetJwsKeyEs256::from_dbvs2(&set)`; witness
+   confirmed on the pre-fix code: every JwsKeyRs256 valueset failed to load with
+   InvalidValueState and from_dbentry returned None for an entry holding one). *)
+Theorem C12_prefix_refuted_valueset :
+  ~ (forall k, k <> VK_Other -> vs_reload_with dispatch_prefix k = Some k).
+Proof. exact prefix_vs_refuted. Qed.
+Theorem C12_prefix_valueset_defect_exact :
+  vs_reload_with dispatch_prefix VK_JwsKeyRs256 = None /\
+  (forall k, k <> VK_JwsKeyRs256 -> k <> VK_Other -> vs_reload_with dispatch_prefix k = Some k).
+Proof. split; [reflexivity | exact prefix_vs_other]. Qed.
+
+(* ================================================================== message expiry (Part D) *)
+(* KNOWN FINDING class=message-subsecond-expiry. A queued CredentialResetV1 message stores its
+   expiry in whole seconds. Full sentence for this encoding: *)
+Definition C12_message_full_statement : Prop := forall t, msg_time_reload t = t.
+Theorem C12_message_refuted : ~ C12_message_full_statement.
+Proof. exact msg_refuted. Qed.
+(* PROVED PART: exact iff the expiry has no sub-second part (KnownClass = the others) *)
+Theorem C12_message_roundtrip_partial : forall t, t mod NS = 0 -> msg_time_reload t = t.
+Proof. intros t H. apply msg_reload_exact. exact H. Qed.
+Theorem C12_message_loss_iff : forall t, msg_time_reload t = t <-> t mod NS = 0.
+Proof. exact msg_reload_exact. Qed.
+(* inside the class the expiry only moves earlier, by less than one second, and the reloaded
+   message stores to the same bytes again *)
+Theorem C12_message_loss_bounded : forall t, msg_time_reload t <= t /\ t < msg_time_reload t + NS.
+Proof. exact msg_reload_le. Qed.
+Theorem C12_message_store_stable : forall t, msg_time_store (msg_time_reload t) = msg_time_store t.
+Proof. exact msg_store_idem. Qed.
 
 (* ================================================================== entries (Part C) *)
 (* For entries of ANY number of attributes and change records. `values_ok attrs` = every
@@ -175,20 +187,16 @@ Proof. intros. split; reflexivity. Qed.
    disagreements), the property holds of the real code's own output on that case. *)
 
 (* passwords: all of the sentence except the recorded verify vectors (which are compared
-   directly by pcheck) follows, outside the known class *)
+   directly by pcheck) follows *)
 Theorem C12_agree_implies_property_password : forall kt d kt2 d2 eq vb va,
-  agree (CPw kt d kt2 d2 eq vb va) = true -> known (CPw kt d kt2 d2 eq vb va) = false ->
-  pcheck_pw_struct kt d kt2 d2 eq = true.
-Proof.
-  intros kt d kt2 d2 eq vb va H Hk. apply (bridge_pw kt d kt2 d2 eq vb va H).
-  intros E. cbn [known] in Hk. rewrite E in Hk. discriminate Hk.
-Qed.
+  agree (CPw kt d kt2 d2 eq vb va) = true -> pcheck_pw_struct kt d kt2 d2 eq = true.
+Proof. exact bridge_pw. Qed.
 Theorem C12_agree_implies_property_load : forall d kt2 d2,
-  agree (CLoad d kt2 d2) = true -> known (CLoad d kt2 d2) = false -> pcheck (CLoad d kt2 d2) = true.
-Proof.
-  intros d kt2 d2 H Hk. apply (bridge_load d kt2 d2 H).
-  intros E. cbn [known] in Hk. rewrite E in Hk. discriminate Hk.
-Qed.
+  agree (CLoad d kt2 d2) = true -> pcheck (CLoad d kt2 d2) = true.
+Proof. exact bridge_load. Qed.
+Theorem C12_agree_implies_property_message : forall t t2,
+  agree (CMsg t t2) = true -> known (CMsg t t2) = false -> pcheck (CMsg t t2) = true.
+Proof. exact bridge_msg. Qed.
 (* valuesets: same type, equal, and stores to the same bytes *)
 Theorem C12_agree_implies_property_valueset_partial : forall k pw tag res same restore obs,
   agree (CVs k pw tag res same restore obs) = true -> k <> VK_Other ->
